@@ -16,6 +16,7 @@ Reproduced on the real code by `o_detonation.epp_weak_piston` (site `EPpiston:we
 -/
 import EPV.Lemmas.EPPistonExists
 import EPV.Tactics
+import EPV.Lemmas.Bridge.EPPiston
 
 set_option linter.all false
 
@@ -25,15 +26,10 @@ namespace EPV.C17
 
 theorem weak_piston_expansive (p : EPPistonIfin.P) (h : EPPistonIfin.outcome p = .ok) (hc : ifinConsistent p)
     (hρ : 0 < p.rho_y) (h1 : p.up < p.vel_y) (h2 : p.vel_y < p.wv_pl) : p.rho2 < p.rho_y := by
-  obtain ⟨_, _, _, _, _, _, _, hr2⟩ := hc
-  simp only [epv_tree] at *
-  split_ifs at * <;> first
-    | epv_absurd
-    | (simp only [epv_leaf] at hr2
-       rw [hr2]
-       have a : 0 < p.wv_pl - p.up := by linarith
-       have b : (p.wv_pl - p.vel_y) / (p.wv_pl - p.up) < 1 := by rw [div_lt_one a]; linarith
-       nlinarith)
+  rw [(EPP.ifin_doc p h hc).1.rho2_eq]
+  have a : 0 < p.wv_pl - p.up := by linarith
+  have b : (p.wv_pl - p.vel_y) / (p.wv_pl - p.up) < 1 := by rw [div_lt_one a]; linarith
+  nlinarith
 
 /-- the default problem with the admissible piston velocity up = 0.001 (wv_pl free) -/
 noncomputable def weakPiston (wv_pl : ℝ) : EPPistonIfin.P :=
@@ -44,10 +40,14 @@ theorem weak_piston_witness (wv_pl : ℝ) :
     0 < (weakPiston wv_pl).rho_y ∧ 0 ≤ (weakPiston wv_pl).up ∧ (weakPiston wv_pl).up < (weakPiston wv_pl).vel_y := by
   have hok := ifinSolve_consistent (143/500) (13/5000) (533/1000) 2 (279/100) (67/50) (1/1000) wv_pl
     (by norm_num) (by norm_num) (by norm_num) (by norm_num)
+  -- the documented formulas of the constructor (bridge), not the shape of the generated definitions
+  have hρy : (weakPiston wv_pl).rho_y ≠ 0 := by
+    simp only [weakPiston, ifinSolve, epv_leaf, Real.rpow_neg_one, Real.rpow_two]; norm_num
+  have hdoc := (EPP.ifin_doc (weakPiston wv_pl) hok.1 hok.2).1
   have h2 : (weakPiston wv_pl).vel_y = (weakPiston wv_pl).wv_el * ((weakPiston wv_pl).rho_y - (weakPiston wv_pl).rho0)
-      / (weakPiston wv_pl).rho_y := rfl
+      / (weakPiston wv_pl).rho_y := hdoc.vel_y_eq hρy
   have h3 : (weakPiston wv_pl).wv_el = Real.sqrt ((weakPiston wv_pl).rho_y * ((weakPiston wv_pl).sdev_y - (weakPiston wv_pl).p_y)
-      / ((weakPiston wv_pl).rho0 * ((weakPiston wv_pl).rho0 - (weakPiston wv_pl).rho_y))) := rfl
+      / ((weakPiston wv_pl).rho0 * ((weakPiston wv_pl).rho0 - (weakPiston wv_pl).rho_y))) := hdoc.wv_el_eq
   have h4 : (6 : ℝ) / 10 ≤ (weakPiston wv_pl).wv_el := by
     rw [h3]; apply Real.le_sqrt_of_sq_le
     simp only [weakPiston, ifinSolve, epv_leaf, Real.rpow_neg_one, Real.rpow_two]; norm_num
